@@ -53,12 +53,15 @@ def to_dimacs_file(formula, fileorname=None,
         for field in formula.header:
             tmp = "c {}: {}\n".format(field, formula.header[field])
             tmp = tmp.encode('ascii', errors='replace').decode('ascii')
+            # a field may span several lines: each one must be a comment
+            tmp = "\nc ".join(tmp[:-1].splitlines()) + "\n"
             output.write(tmp)
         output.write("c\n")
 
     if export_varnames:
         for varid, label in enumerate(formula.all_variable_labels(), start=1):
-            output.write("c varname {0} {1}\n".format(varid, label))
+            tmp = "c varname {0} {1}".format(varid, label)
+            output.write("\nc ".join(tmp.splitlines()) + "\n")
         output.write("c\n")
 
     # Formula specification
